@@ -259,6 +259,9 @@ func (w *World) FwdCCTPCaller(domain uint32) Fwd {
 func (w *World) FwdHyp(domain uint32) Fwd {
 	return Fwd{Kind: "hyp", Domain: domain, Token: w.TokenT0.Bytes(), Recipient: b32(5), GasLimit: "0", MaxFee: "0uusdc"}
 }
+func (w *World) FwdHypSyn() Fwd {
+	return Fwd{Kind: "hyp", Tag: "hypSYN", Domain: 1, Token: w.TokenSyn.Bytes(), Recipient: b32(5), GasLimit: "0", MaxFee: "0uusdc"}
+}
 func (w *World) FwdHypIGP(maxFee string) Fwd {
 	return Fwd{Kind: "hyp", Tag: "hypIGP(maxfee=" + maxFee + ")", Domain: 1, Token: w.TokenT1.Bytes(), Recipient: b32(5), GasLimit: "0", MaxFee: maxFee}
 }
